@@ -254,7 +254,7 @@ def run_sweep(desc, deadline, res):
                 res.capped = True
                 return
             nontrivial = n >= 2 and len({len(t) for t in tup}) > 1
-            for base in b['baselines']:
+            for base in (b['baselines'] if n < 4 else b['baselines'][:2]):
                 all_texts = []
                 for i, t in enumerate(tup):
                     texts = f.texts(base, i)
